@@ -127,3 +127,118 @@ Definition sender_no_panic' := sender_no_panic late_never.
 Definition sender_completion_exactly_once' := sender_completion_exactly_once late_never.
 Definition emitted_good' := emitted_good late_never.
 End Sender.
+
+(** ** liveness, as far as the model carries it (claim (e), partial: what makes the connection call
+    popStreamFrame and declare losses — run loop, PTO timers, congestion window — is not modelled) *)
+From V Require Import SendStream.ProofsLive.
+
+Lemma run_state_app s0 a b : run_state s0 (a ++ b) = run_state (run_state s0 a) b.
+Proof. unfold run_state. apply fold_left_app. Qed.
+
+Definition same_but_windows (s1 s : state) : Prop :=
+  resetErr s1 = resetErr s /\ shutdown s1 = shutdown s /\ panicked s1 = panicked s /\ finishedWriting s1 = finishedWriting s /\
+  mu s1 = mu s /\ pend s1 = pend s /\ fcSent s1 = fcSent s /\ ccSent s1 = ccSent s /\ W s1 = W s /\
+  fcWindow s <= fcWindow s1 /\ ccWindow s <= ccWindow s1.
+
+Lemma win_fields s L : panicked s = false ->
+  same_but_windows (fst (step s (OWin L))) s /\ L <= fcWindow (fst (step s (OWin L))).
+Proof.
+  intros HP. unfold step. rewrite HP. unfold do_win, same_but_windows.
+  destruct (Z.gtb_spec L (fcWindow s)); cbn [fst]; unfold mu, pend, nfLen; ssimp; repeat split; auto; lia.
+Qed.
+Lemma cwin_fields s L : panicked s = false ->
+  same_but_windows (fst (step s (OConnWin L))) s /\ L <= ccWindow (fst (step s (OConnWin L))).
+Proof.
+  intros HP. unfold step. rewrite HP. unfold do_cwin, same_but_windows.
+  destruct (Z.gtb_spec L (ccWindow s)); cbn [fst]; unfold mu, pend, nfLen; ssimp; repeat split; auto; lia.
+Qed.
+
+Lemma grant_fields s L1 L2 : panicked s = false ->
+  let s1 := run_state s [OWin L1; OConnWin L2] in
+  resetErr s1 = resetErr s /\ shutdown s1 = shutdown s /\ panicked s1 = false /\ finishedWriting s1 = finishedWriting s /\
+  mu s1 = mu s /\ pend s1 = pend s /\ fcSent s1 = fcSent s /\ ccSent s1 = ccSent s /\ L1 <= fcWindow s1 /\ L2 <= ccWindow s1 /\
+  W s1 = W s.
+Proof.
+  intros HP. unfold run_state. cbn [fold_left].
+  destruct (win_fields s L1 HP) as [(A1 & A2 & A3 & A4 & A5 & A6 & A7 & A8 & A9 & A10 & A11) A12].
+  set (sa := fst (step s (OWin L1))) in *.
+  assert (HPa : panicked sa = false) by congruence.
+  destruct (cwin_fields sa L2 HPa) as [(B1 & B2 & B3 & B4 & B5 & B6 & B7 & B8 & B9 & B10 & B11) B12].
+  repeat split; try congruence; lia.
+Qed.
+
+Section Live.
+Variables (sid0 : Z) (rsa : bool) (swin cwin : Z) (ops : list op) (L1 L2 : Z).
+Let s0 := init sid0 rsa swin cwin.
+Let s := run_state s0 ops.
+Definition settle_ops (k a : nat) : list op :=
+  [OWin L1; OConnWin L2] ++ repeat (OPop ssMaxPacketBufferSize) k ++ repeat (OAcked 0) a.
+
+Theorem sender_drains :
+  budgets_ok ops -> resetErr s = None -> shutdown s = false -> finishedWriting s = true ->
+  fcSent s + pend s < L1 -> ccSent s + pend s < L2 ->
+  exists k a, Z.of_nat k = mu s /\
+    let ops' := ops ++ settle_ops k a in
+    let s' := run_state s0 ops' in
+    retransQ s' = [] /\ outstanding s' = [] /\ nextFrame s' = None /\ dataForWriting s' = [] /\ finSent s' = true /\
+    W s' = W s /\ writeOffset s' = zlen (W s) /\
+    (forall i, 0 <= i < zlen (W s) -> covered i (acked s')) /\
+    completed s' = true /\ done_calls (snd (run s0 ops')) = 1.
+Proof.
+  intros HB HR HS HF H1 H2.
+  assert (HP : panicked s = false).
+  { pose proof (sender_no_panic' sid0 rsa swin cwin ops HB) as [X _]. rewrite run_fst in X. exact X. }
+  destruct (grant_fields s L1 L2 HP) as (G1 & G2 & G3 & G4 & G5 & G6 & G7 & G8 & G9 & G10 & G11).
+  set (g := [OWin L1; OConnWin L2]) in *.
+  set (s1 := run_state s g) in *.
+  assert (E1 : s1 = run_state s0 (ops ++ g)) by (subst s1 s; now rewrite run_state_app).
+  assert (D1 : DrainInv s1).
+  { constructor; try congruence; try lia.
+    rewrite E1. apply run_Inv; [apply init_Inv|]. apply run_late_const. }
+  set (k := Z.to_nat (mu s)).
+  pose proof (mu_nonneg s) as Hmu.
+  destruct (drain k s1 D1 ltac:(lia)) as (D2 & M2 & W2).
+  set (pp := repeat (OPop ssMaxPacketBufferSize) k) in *.
+  set (s2 := run_state s1 pp) in *.
+  assert (E2 : s2 = run_state s0 (ops ++ g ++ pp)) by (subst s2; rewrite E1, <- run_state_app, <- app_assoc; reflexivity).
+  destruct (mu0_fields _ M2) as (Q2 & N2 & F2 & S2).
+  assert (I2 : Inv s2 /\ Inv2 s2).
+  { rewrite E2. apply run_Inv2; [apply init_Inv|apply init_Inv2|discriminate|]. rewrite <- E2. apply D2. }
+  assert (T2 : Settled s2).
+  { constructor; auto; try apply D2. apply (j_cnt _ (proj2 I2)). }
+  set (a := length (outstanding s2)).
+  destruct (ack_all (outstanding s2) s2 T2 eq_refl) as (T3 & O3 & W3).
+  fold a in T3, O3, W3.
+  set (aa := repeat (OAcked 0) a) in *.
+  set (s3 := run_state s2 aa) in *.
+  assert (E3 : s3 = run_state s0 (ops ++ settle_ops k a)).
+  { subst s3. rewrite E2, <- run_state_app. unfold settle_ops. fold g pp aa. now rewrite <- !app_assoc. }
+  exists k, a. split; [subst k; lia|]. cbn zeta. rewrite <- E3.
+  assert (BO : budgets_ok (ops ++ settle_ops k a)).
+  { intros mb HIn. apply in_app_or in HIn. destruct HIn as [X|X]; [auto|].
+    unfold settle_ops in X. cbn [app] in X. destruct X as [X|[X|X]]; try discriminate.
+    apply in_app_or in X. destruct X as [X|X]; apply repeat_spec in X; inversion X. lia. }
+  assert (I3 : Inv s3 /\ Inv2 s3).
+  { rewrite E3. apply run_Inv2; [apply init_Inv|apply init_Inv2|discriminate|]. rewrite <- E3. apply T3. }
+  assert (WO : writeOffset s3 = zlen (W s3)).
+  { destruct (i_pend _ (proj1 I3)) as [X|[(_ & sent & X & Y)|[(X & _)|(X & _)]]].
+    - rewrite (t_sh _ T3) in X. discriminate.
+    - unfold nfData in X. rewrite (t_nf _ T3), (t_dfw _ T3), !app_nil_r in X. congruence.
+    - destruct (X (t_reset _ T3)).
+    - destruct (X (t_reset _ T3)). }
+  assert (WW : W s3 = W s) by congruence.
+  repeat split; try apply T3; auto.
+  - congruence.
+  - intros i Hi. pose proof (j_cov _ (proj2 I3) (t_sh _ T3) i) as C. unfold live in C.
+    rewrite O3, (t_q _ T3), !app_nil_r in C. apply C. rewrite WO, WW. exact Hi.
+  - pose proof (sender_completion_exactly_once' sid0 rsa swin cwin _ BO) as [_ X].
+    rewrite run_fst in X. fold s0 in X. rewrite <- E3 in X. apply X; [apply T3|].
+    unfold all_done, nfLen. rewrite (t_nf _ T3), (t_cnt _ T3), O3, (t_q _ T3).
+    repeat split; auto; [apply (j_cnt _ (proj2 I3))|left; apply T3].
+  - pose proof (sender_completion_exactly_once' sid0 rsa swin cwin _ BO) as [Y X].
+    rewrite run_fst in X, Y. fold s0 in X, Y. rewrite <- E3 in X, Y. rewrite Y.
+    rewrite X; [reflexivity|apply T3|].
+    unfold all_done, nfLen. rewrite (t_nf _ T3), (t_cnt _ T3), O3, (t_q _ T3).
+    repeat split; auto; [apply (j_cnt _ (proj2 I3))|left; apply T3].
+Qed.
+End Live.
